@@ -655,6 +655,11 @@ func (e *Engine) classify(f *ssa.Function, d CtrlDep, depth int) []string {
 
 // a validity literal: the result of a field equality test, of SqrtRatio's wasSquare, or of an unexported
 // predicate/helper of the root package (isOnCurve, isReduced, a recoverX split off the decoder, …)
+type site2 struct {
+	conj []string
+	fwd  *ssa.Function
+}
+
 var validityLit = regexp.MustCompile(`^PRED\[(field\.\(\*Element\)\.Equal#0|field\.\(\*Element\)\.SqrtRatio#1|\(?\*?[A-Za-z0-9_]*\)?\.?[a-z][A-Za-z0-9_]*#\d+) (==|!=) (0|1|true|false)\]$`)
 
 func isErr(t types.Type) bool {
@@ -722,19 +727,38 @@ func (e *Engine) errorClasses(f *ssa.Function, depth int) []string {
 			}
 		}
 	}
+	// a condition that can hold in several ways (an error inherited from a callee that has several reject sites)
+	// makes several sites: distribute the alternatives
+	var expanded []site2
 	for _, s := range sites {
-		var conj []string
+		alts := [][]string{{}}
 		infeasible := false
 		for _, d := range s.lits {
 			cs := e.classify(f, d, depth)
 			if len(cs) == 0 {
 				infeasible = true // every way this condition could hold is decided false here
+				break
 			}
-			conj = append(conj, strings.Join(cs, " ∨ "))
+			var next [][]string
+			for _, a := range alts {
+				for _, c := range cs {
+					next = append(next, append(append([]string{}, a...), c))
+				}
+			}
+			if len(next) > 64 {
+				next = next[:64]
+			}
+			alts = next
 		}
 		if infeasible {
 			continue
 		}
+		for _, a := range alts {
+			expanded = append(expanded, site2{conj: a, fwd: s.fwd})
+		}
+	}
+	for _, s := range expanded {
+		conj := s.conj
 		sort.Strings(conj)
 		if s.fwd != nil {
 			for _, c := range e.errorClasses(s.fwd, depth+1) {
